@@ -129,7 +129,7 @@ def rules(ctx: Ctx) -> None:
     ctx.ob("R04.3", "repair:pairs-are-all-edges-leaving-unresolved-columns", ok_pairs, loc(fold.mod, PL), "every edge leaving a multi-candidate column is a pair to repair")
     # orphan sweep after the loop
     fcfg = flow(prog, fold).cfg
-    sweeps = [c for c in fcfg.nodes.values() if c.kind == "for" and "degree" in u(c.ast.iter) and any(isinstance(k, ast.Call) and isinstance(k.func, ast.Attribute) and k.func.attr == "remove_node" for k in ast.walk(c.ast))]
+    sweeps = [c for c in fcfg.nodes.values() if c.kind == "for" and any(isinstance(k, ast.Attribute) and k.attr == "degree" for k in prog.influences(fold, c.ast.iter)) and any(isinstance(k, ast.Call) and isinstance(k.func, ast.Attribute) and k.func.attr == "remove_node" for k in ast.walk(c.ast))]
     pl_node = next(c for c in fcfg.nodes.values() if c.kind == "for" and c.ast is PL)
     ok_sweep = len(sweeps) == 1 and fcfg.reach(pl_node.id, sweeps[0].id) and not fcfg.reach(sweeps[0].id, pl_node.id)
     ctx.ob("R04.3", "repair:orphan-sweep-after-the-loop", ok_sweep, fold.loc(), "resolved (now orphan) multi-candidate columns are removed by one sweep after all pairs were handled")
